@@ -213,8 +213,43 @@ def op_append(parent, idx, ik, ik2):
     return _attempt(parent, lambda: parent.children.append(item), [item])
 
 
+def _attached(ik):
+    """an item that already is the child of some other node"""
+    from psyclone.psyir.nodes import Schedule
+    item = ITEMS[ik % NI]()
+    holder = Schedule()
+    try:
+        holder.addchild(item)
+    except GenerationError:
+        return None
+    return item
+
+
+def op_extend_same(parent, idx, ik, ik2):
+    return op_extend(parent, idx, ik, NI)
+
+
+def op_extend_attached(parent, idx, ik, ik2):
+    return op_extend(parent, idx, ik, NI + 1)
+
+
+def op_extend_two(parent, idx, ik, ik2):
+    return op_extend(parent, idx, ik, ik2 % NI)
+
+
 def op_extend(parent, idx, ik, ik2):
     a = ITEMS[ik]()
+    if ik2 == NI + 1:
+        # second item still attached elsewhere: the whole extend must be rejected and nothing linked
+        b = _attached(ik)
+        if b is None:
+            return True
+        before = snapshot(parent)
+        try:
+            parent.children.extend([a, b])
+        except (GenerationError, IndexError, ValueError, TypeError):
+            return snapshot(parent) == before and a.parent is None
+        return invariant(parent)
     b = a if ik2 == NI else ITEMS[ik2 % NI]()
     return _attempt(parent, lambda: parent.children.extend([a, b]), [a, b])
 
@@ -264,7 +299,8 @@ def op_popall(parent, idx, ik, ik2):
 
 
 OPS = {"insert": op_insert, "addchild": op_addchild, "pop": op_pop, "delitem": op_delitem,
-       "setitem": op_setitem, "append": op_append, "extend": op_extend,
+       "setitem": op_setitem, "append": op_append, "extend": op_extend_two, "extend_same": op_extend_same,
+       "extend_attached": op_extend_attached,
        "setchildren": op_setchildren, "remove": op_remove, "detach": op_detach,
        "replace": op_replace, "reverse": op_reverse, "clear": op_clear, "popall": op_popall}
 
